@@ -156,7 +156,7 @@ func baseClass(s string) string {
 
 func init() {
 	checks["C30"] = eng.Check{
-		Rule:        "memory-view address argument: EVERY string of length 1..4 over {0,1,7,9,a,f,g,x,X,b,B,-,+,_} (thorough: length 1..6 over the same characters plus o and O) plus boundary literals around 2^64 in every base, against an independent integer-literal parser (decimal, 0x/0X, 0b/0B, 0-prefixed octal; fits 64 bits); emulator prompt value: the same strings (plus 'o' forms, empty line) x widths {1,2,4,8} (the boundary literals and all strings of length <=2 also at widths 16,31,32,33,40,64,128,255) typed through the real line reader: typed integer modulo 2^(8w) as a w-byte constant, errors for empty input, underscores, malformed numbers; crashes are violations. Non-trivial = input that denotes a number.",
+		Rule:        "memory-view address argument: EVERY string of length 1..4 over {0,1,7,9,a,f,g,x,X,b,B,-,+,_} (thorough: length 1..6 over the same characters plus o and O) plus boundary literals around 2^64 in every base and lines of 4000..60000 characters (zero-padded numbers in every base, long decimals, malformed tails), against an independent integer-literal parser (decimal, 0x/0X, 0b/0B, 0-prefixed octal; fits 64 bits); emulator prompt value: the same strings (plus 'o' forms, empty line) x widths {1,2,4,8} (the boundary literals and all strings of length <=2 also at widths 16,31,32,33,40,64,128,255) typed through the real line reader: typed integer modulo 2^(8w) as a w-byte constant, errors for empty input, underscores, malformed numbers; crashes are violations. Non-trivial = input that denotes a number.",
 		Assumptions: []string{"'0', '00..' (zero in a 0-prefixed form) may be accepted as 0 or rejected, and a leading '+' may be accepted or rejected: the property text does not decide these"},
 		Run: func(r *eng.Run) {
 			alpha := []byte("0179afgxXbB-+_")
@@ -185,6 +185,12 @@ func init() {
 			extra := []string{"18446744073709551615", "18446744073709551616", "0xffffffffffffffff", "0x10000000000000000", "0XFFFFFFFFFFFFFFFF",
 				"01777777777777777777777", "02000000000000000000000", "0b" + strings.Repeat("1", 64), "0B" + strings.Repeat("1", 65), "0b101", "0B101", "0b0", "017", "0x2000", "0X2000",
 				"8", "08", "0x", "0b", "x", "0", "00", "000", "-0", "-1", "-0x80", "-0b1", "-017", "0o17", "0O17", "0o8", "-0o7", " 5", "5 ", "1e3", "0x1p3", "١٢", ""}
+			// very long lines (around the 4096-byte buffer of a buffered reader, and up to 60000
+			// characters): zero-padded numbers in every base, a long decimal, a malformed tail
+			for _, n := range []int{4000, 4093, 4094, 4095, 4096, 4097, 5000, 8191, 8192, 8193, 60000} {
+				z := strings.Repeat("0", n)
+				extra = append(extra, "0x"+z+"1f", "0"+z+"17", "0b"+z+"101", "-0x"+z+"2", "1"+z, strings.Repeat("9", n), z+"_1", "0x"+z+"g", "7"+z+"_")
+			}
 			r.Note("alphabet=%q max length=%d", alpha, maxLen)
 			process = func(s string) {
 				if s != "" {
